@@ -20,9 +20,16 @@ BUDGET = {"quick": 600, "thorough": 3000}
 
 def cases(tier):
     nmax = 4 if tier == "quick" else 5
+    seen = set()
     for variant in gp_cases.ff_variants(tier):
         if len(variant["links"]) > 1 and tier == "quick":
             continue      # pairs of links are judged by C02; C01 quick uses no-link and single-link force fields
+        if len(variant["links"]) > 2:
+            continue      # triples are C02's business
+        key = tuple(sorted(variant["links"]))
+        if key in seen:
+            continue      # block copies do not depend on the order of two links
+        seen.add(key)
         for n in range(1, nmax + 1):
             if n == 5 and len(variant["links"]) > 1:
                 continue
